@@ -221,6 +221,16 @@ impl ShardedWriteBuffer {
             .iter()
             .map(|entry| entry.record.calculate_size())
             .sum::<usize>();
+        #[cfg(feoxdb_verif)]
+        for entry in entries.iter() {
+            crate::verif::emit(
+                "enq",
+                &entry.record.key,
+                entry.record.timestamp,
+                (entry.op == Operation::Delete) as u64,
+                self as *const Self as u64,
+            );
+        }
         buffer.extend(entries);
 
         self.count.fetch_add(N, Ordering::Relaxed);
@@ -231,6 +241,8 @@ impl ShardedWriteBuffer {
     fn drain_entries(&self) -> Vec<WriteEntry> {
         let mut buffer = self.buffer.lock();
         let entries: Vec<_> = buffer.drain(..).collect();
+        #[cfg(feoxdb_verif)]
+        crate::verif::emit("drain", &[], entries.len() as u64, 0, self as *const Self as u64);
 
         self.count.store(0, Ordering::Relaxed);
         self.size.store(0, Ordering::Relaxed);
@@ -249,6 +261,8 @@ impl ShardedWriteBuffer {
             .map(|entry| entry.record.calculate_size())
             .sum();
         let mut buffer = self.buffer.lock();
+        #[cfg(feoxdb_verif)]
+        crate::verif::emit("requeue", &[], count as u64, failed as u64, self as *const Self as u64);
         for entry in entries.into_iter().rev() {
             if failed {
                 let retries = entry.retry_count.fetch_add(1, Ordering::Relaxed) + 1;
@@ -348,6 +362,8 @@ impl WriteBuffer {
                 response: None,
                 defer_retirements: false,
             };
+            #[cfg(feoxdb_verif)]
+            crate::verif::emit("trigger", &[], shard_id as u64, worker_id as u64, buffer as *const ShardedWriteBuffer as u64);
             let _ = self.worker_channels[worker_id].try_send(req);
         }
     }
@@ -407,6 +423,8 @@ impl WriteBuffer {
                         .any(|shard_id| {
                             sharded_buffers[shard_id].count.load(Ordering::Relaxed) > 0
                         });
+                    #[cfg(feoxdb_verif)]
+                    crate::verif::emit("tick", &[], worker_id as u64, pending as u64, retirements_pending as u64);
                     if pending || (worker_id == 0 && retirements_pending) {
                         let _ = channel.try_send(FlushRequest {
                             response: None,
@@ -541,7 +559,11 @@ fn write_buffer_worker(ctx: WorkerContext, flush_rx: Receiver<FlushRequest>) {
             }
         };
 
+        #[cfg(feoxdb_verif)]
+        crate::verif::emit("worker_req", &[], ctx.worker_id as u64, req.defer_retirements as u64, req.response.is_some() as u64);
         let result = flush_worker_shards(&ctx, format, !req.defer_retirements);
+        #[cfg(feoxdb_verif)]
+        crate::verif::emit("worker_done", &[], ctx.worker_id as u64, result.is_ok() as u64, matches!(result, Ok(true)) as u64);
         if let Some(tx) = req.response {
             let _ = tx.send(result);
         }
@@ -556,6 +578,8 @@ fn write_buffer_worker(ctx: WorkerContext, flush_rx: Receiver<FlushRequest>) {
                 Ok(true) => {
                     retries += 1;
                     if retries == FINAL_FLUSH_RETRY_LIMIT {
+                        #[cfg(feoxdb_verif)]
+                        crate::verif::emit("final_flush_fail", &[], ctx.worker_id as u64, 0, 0);
                         eprintln!("feox: final write-buffer flush left pending retirements");
                         break;
                     }
@@ -563,16 +587,22 @@ fn write_buffer_worker(ctx: WorkerContext, flush_rx: Receiver<FlushRequest>) {
                     retry_delay_us = (retry_delay_us * 2).min(1_000);
                 }
                 Err(error @ FeoxError::IndeterminateWrite(_)) => {
+                    #[cfg(feoxdb_verif)]
+                    crate::verif::emit("final_flush_fail", &[], ctx.worker_id as u64, 1, 0);
                     eprintln!("feox: final write-buffer flush failed: {error}");
                     break;
                 }
                 Err(error) => {
                     if !final_flush_error_is_retryable(&error) {
+                        #[cfg(feoxdb_verif)]
+                        crate::verif::emit("final_flush_fail", &[], ctx.worker_id as u64, 2, 0);
                         eprintln!("feox: final write-buffer flush failed: {error}");
                         break;
                     }
                     retries += 1;
                     if retries == FINAL_FLUSH_RETRY_LIMIT {
+                        #[cfg(feoxdb_verif)]
+                        crate::verif::emit("final_flush_fail", &[], ctx.worker_id as u64, 3, 0);
                         eprintln!(
                             "feox: final write-buffer flush failed after {retries} attempts: {error}"
                         );
@@ -735,6 +765,8 @@ fn process_deletions(
     for entry in delete_operations {
         let sector = entry.record.sector.load(Ordering::Acquire);
         if sector == 0 {
+            #[cfg(feoxdb_verif)]
+            crate::verif::emit("ret_drop", &entry.record.key, entry.record.timestamp, 0, 0);
             continue;
         }
         if entry.work_status.load(Ordering::Acquire) == DELETE_MARKER_DURABLE {
@@ -742,16 +774,24 @@ fn process_deletions(
             continue;
         }
         if !entry.record.successor_is_durable_or_deleted() {
+            #[cfg(feoxdb_verif)]
+            crate::verif::emit("ret_wait", &entry.record.key, entry.record.timestamp, 0, sector);
             retries.push(entry);
             continue;
         }
 
+        #[cfg(feoxdb_verif)]
+        crate::verif::emit("ret_bit", &entry.record.key, entry.record.timestamp, 0, sector);
         entry.record.retire_extent();
         if entry.record.extent_has_readers() {
+            #[cfg(feoxdb_verif)]
+            crate::verif::emit("ret_wait", &entry.record.key, entry.record.timestamp, 1, sector);
             retries.push(entry);
             continue;
         }
         let sectors_needed = format_extent_size(&entry, format);
+        #[cfg(feoxdb_verif)]
+        crate::verif::emit("ret_mark", &entry.record.key, entry.record.timestamp, sectors_needed as u64, sector);
         marker_extents.push((sector, sectors_needed));
         marker_writes.push(entry);
     }
@@ -759,6 +799,8 @@ fn process_deletions(
     if !marker_writes.is_empty() {
         match disk_io.write().retire_extents(&marker_extents) {
             Ok(()) => {
+                #[cfg(feoxdb_verif)]
+                crate::verif::emit("ret_marked", &[], marker_writes.len() as u64, 0, 0);
                 for entry in &marker_writes {
                     entry
                         .work_status
@@ -779,6 +821,8 @@ fn process_deletions(
     let mut releasable = Vec::with_capacity(release_operations.len());
     for entry in release_operations {
         if entry.record.extent_has_readers() {
+            #[cfg(feoxdb_verif)]
+            crate::verif::emit("ret_wait", &entry.record.key, entry.record.timestamp, 2, 0);
             retries.push(entry);
             continue;
         }
@@ -842,6 +886,8 @@ fn release_retirement_group(
 
     match free_space.release_sectors(sector, sectors_needed) {
         Ok(()) => {
+            #[cfg(feoxdb_verif)]
+            crate::verif::emit("release", &[], sector, sectors_needed, 0);
             *released_sectors += sectors_needed;
             stats
                 .disk_usage
@@ -932,6 +978,14 @@ fn process_write_batch(
                 Some(sector) => sector,
                 None => match free_space_guard.allocate_sectors(sectors_needed as u64) {
                     Ok(sector) => {
+                        #[cfg(feoxdb_verif)]
+                        crate::verif::emit(
+                            "alloc",
+                            &prepared_writes[index].entry.record.key,
+                            sector,
+                            sectors_needed as u64,
+                            prepared_writes[index].entry.record.timestamp,
+                        );
                         reserve_sector(&prepared_writes[index].entry, sector);
                         stats.disk_usage.fetch_add(
                             (sectors_needed * FEOX_BLOCK_SIZE) as u64,
@@ -941,6 +995,14 @@ fn process_write_batch(
                         sector
                     }
                     Err(error) => {
+                        #[cfg(feoxdb_verif)]
+                        crate::verif::emit(
+                            "alloc_fail",
+                            &prepared_writes[index].entry.record.key,
+                            0,
+                            sectors_needed as u64,
+                            prepared_writes[index].entry.record.timestamp,
+                        );
                         drop(free_space_guard);
                         let _ = release_allocations(free_space, &prepared_writes, stats);
                         retry_entries.extend(prepared_writes.drain(..).map(|write| write.entry));
@@ -1103,6 +1165,14 @@ fn process_write_batch(
             crash_at("after_replacement_write");
         }
         for write in &prepared_writes {
+            #[cfg(feoxdb_verif)]
+            crate::verif::emit(
+                "publish",
+                &write.entry.record.key,
+                write.sector.unwrap(),
+                write.sectors_needed as u64,
+                write.entry.record.timestamp,
+            );
             write
                 .entry
                 .record
@@ -1146,6 +1216,8 @@ fn failed_batch_outcome(
     failure: BatchFailure,
 ) -> BatchOutcome {
     stats.record_write_failed();
+    #[cfg(feoxdb_verif)]
+    crate::verif::emit("batch_fail", &[], failure.indeterminate as u64, failure.clear_journal as u64, prepared_writes.len() as u64);
 
     let error = if failure.indeterminate {
         quarantine_allocations(prepared_writes);
@@ -1160,6 +1232,8 @@ fn failed_batch_outcome(
         ) {
             Ok(()) => failure.error,
             Err(cleanup_error) => {
+                #[cfg(feoxdb_verif)]
+                crate::verif::emit("poison", &[], 0, 0, 0);
                 quarantine_allocations(prepared_writes);
                 disk_io.poison_writes(cleanup_error)
             }
@@ -1190,6 +1264,8 @@ fn release_allocations(
         }
         match free_space_guard.release_sectors(sector, allocation.sectors_needed as u64) {
             Ok(()) => {
+                #[cfg(feoxdb_verif)]
+                crate::verif::emit("release", &[], sector, allocation.sectors_needed as u64, 1);
                 stats.disk_usage.fetch_sub(
                     (allocation.sectors_needed * FEOX_BLOCK_SIZE) as u64,
                     Ordering::Relaxed,
@@ -1213,6 +1289,14 @@ fn release_allocations(
 fn quarantine_allocations(allocations: &[PreparedWrite]) {
     for allocation in allocations {
         if allocation.sector.is_some() {
+            #[cfg(feoxdb_verif)]
+            crate::verif::emit(
+                "quarantine",
+                &allocation.entry.record.key,
+                allocation.sector.unwrap_or(0),
+                allocation.sectors_needed as u64,
+                allocation.entry.record.timestamp,
+            );
             quarantine_reservation(&allocation.entry);
         }
     }
@@ -1275,6 +1359,8 @@ fn release_scrubbed_allocations(
 
         match free_space.release_sectors(sector, sectors_needed) {
             Ok(()) => {
+                #[cfg(feoxdb_verif)]
+                crate::verif::emit("release", &[], sector, sectors_needed, 2);
                 stats
                     .disk_usage
                     .fetch_sub(sectors_needed * FEOX_BLOCK_SIZE as u64, Ordering::Relaxed);
@@ -1351,6 +1437,8 @@ fn prepare_deferred_record_data(
     }
 
     let extent = source.acquire_extent().ok_or(FeoxError::StaleExtent)?;
+    #[cfg(feoxdb_verif)]
+    crate::verif::emit("pin", &source.key, extent.verif_id(), source.timestamp, 1);
     let sector = source.sector.load(Ordering::Acquire);
     if sector == 0 {
         return Err(FeoxError::StaleExtent);
@@ -1361,6 +1449,8 @@ fn prepare_deferred_record_data(
     let total_size = format.total_size(source.key.len(), source.value_len);
     let sectors = total_size.div_ceil(FEOX_BLOCK_SIZE);
     let mut data = disk_io.read().read_sectors_sync(sector, sectors as u64)?;
+    #[cfg(feoxdb_verif)]
+    crate::verif::emit("pread", &source.key, sector, sectors as u64, source.timestamp);
     drop(extent);
     if !sector_holds_record(&data, &source) {
         return Err(FeoxError::StaleExtent);
